@@ -544,9 +544,8 @@ func (r *resolver) resolveRef(rs *Resolved, s *Schema, ref string) (_ *Schema, d
 		// http://foo.com/bar.json/baz, where the document is in bar.json and
 		// the reference points to a subschema within it.
 		// TODO: support that case.
-		if lrs := r.loaded[fraglessRefURI.String()]; lrs != nil {
-			referencedSchema = lrs.root
-		} else {
+		lrs := r.loaded[fraglessRefURI.String()]
+		if lrs == nil {
 			// Try to load the schema.
 			ls, err := r.opts.Loader(fraglessRefURI)
 			if err != nil {
@@ -554,18 +553,21 @@ func (r *resolver) resolveRef(rs *Resolved, s *Schema, ref string) (_ *Schema, d
 			}
 			// If the referenced schema does not declare a $schema, it inherits the draft of the
 			// document that refers to it (without modifying the loaded schema).
-			lrs, err := r.resolve(ls, fraglessRefURI, rs)
+			lrs, err = r.resolve(ls, fraglessRefURI, rs)
 			if err != nil {
 				return nil, "", err
 			}
-			referencedSchema = lrs.root
-			assert(referencedSchema != nil, "nil referenced schema")
-			// Copy the resolvedInfos from lrs into rs, without overwriting
-			// (hence we can't use maps.Insert).
-			for s, i := range lrs.resolvedInfos {
-				if rs.resolvedInfos[s] == nil {
-					rs.resolvedInfos[s] = i
-				}
+		}
+		referencedSchema = lrs.root
+		assert(referencedSchema != nil, "nil referenced schema")
+		// Copy the resolvedInfos from lrs into rs, without overwriting
+		// (hence we can't use maps.Insert).
+		// This is needed for a schema that was loaded earlier (by this or another
+		// document) as much as for one loaded just now: the fragment lookup below and
+		// validation find the referenced document's schemas through rs.
+		for s, i := range lrs.resolvedInfos {
+			if rs.resolvedInfos[s] == nil {
+				rs.resolvedInfos[s] = i
 			}
 		}
 	}
